@@ -47,10 +47,30 @@ type Profile struct {
 	PComment    float64
 	PNonASCII   float64
 	PCompact    float64
+	Wide        bool // dozens of entries in in-order lists and allotments
 }
 
 func DrawProfile(r *rand.Rand) Profile {
 	f := func(choices ...float64) float64 { return choices[r.IntN(len(choices))] }
+	p := drawProfile(r, f)
+	// size strata: now and then a long script, a deep tree or many variables - anything
+	// that only goes wrong beyond a size threshold needs inputs beyond it
+	switch r.IntN(80) {
+	case 0:
+		p.MaxStmts = 10 + r.IntN(40)
+	case 1:
+		p.MaxDepth = 5 + r.IntN(4)
+		p.PSeqSrc, p.PSeqDst, p.PAllotSrc, p.PAllotDst = 0.5, 0.4, 0.3, 0.3
+	case 2:
+		p.MaxVars = 15 + r.IntN(25)
+		p.MaxStmts = 6 + r.IntN(10)
+	case 3:
+		p.Wide = true
+	}
+	return p
+}
+
+func drawProfile(r *rand.Rand, f func(...float64) float64) Profile {
 	return Profile{
 		MaxStmts:    1 + r.IntN(6),
 		MaxDepth:    1 + r.IntN(3),
@@ -444,6 +464,10 @@ func (g *G) source(asset string, depth int, sendAll bool, ample bool) Src {
 	switch weighted(g.R, w) {
 	case 1:
 		n := []int{0, 1, 2, 2, 3, 3, 4, 5}[g.R.IntN(8)]
+		if g.P.Wide && g.chance(0.5) {
+			n = 8 + g.R.IntN(30)
+			depth = 1
+		}
 		if ample && n == 0 {
 			n = 1
 		}
@@ -516,6 +540,10 @@ func (g *G) destination(asset string, depth int) Dst {
 	case 1:
 		d := Dst{K: "seq"}
 		n := []int{0, 1, 1, 2, 2, 3, 3, 4, 5, 6}[g.R.IntN(10)]
+		if g.P.Wide && g.chance(0.5) {
+			n = 8 + g.R.IntN(30)
+			depth = 1
+		}
 		for i := 0; i < n; i++ {
 			d.Clauses = append(d.Clauses, DstClause{Cap: *g.capExpr(asset), To: g.kod(asset, depth-1)})
 		}
